@@ -34,6 +34,12 @@ HomologuesShareNumber(T) ==
 NameTagged(T) == \A g \in ChrGroups(T) : T.map[g].nm # "" => NameOfGroup(T, g) = Pfx(T) \o T.map[g].nm /\ T.out[OutOf(T, MainOf(T.map[g]).src)].rank = 2
 UnlocNames(T) == \A g \in ChrGroups(T) : LET U == PiecesOf(T.map[g], "unloc") IN
    {T.out[OutOf(T, T.map[g].pieces[p].src)].name : p \in U} = {NameOfGroup(T, g) \o "_unloc_" \o ToString(m) : m \in 1..Cardinality(U)}
+\* "unloc pieces <chromosome>_unloc_1..m ... in non-increasing length" (the tool's help: sorted and numbered from longest to shortest)
+UnlocsSortedBySize(T) == \A g \in ChrGroups(T) : LET U == PiecesOf(T.map[g], "unloc") IN
+   \A p1, p2 \in U : \A m \in 1..(Cardinality(U) - 1) :
+      (T.out[OutOf(T, T.map[g].pieces[p1].src)].name = NameOfGroup(T, g) \o "_unloc_" \o ToString(m)
+       /\ T.out[OutOf(T, T.map[g].pieces[p2].src)].name = NameOfGroup(T, g) \o "_unloc_" \o ToString(m + 1))
+      => (T.map[g].pieces[p1].b - T.map[g].pieces[p1].a) >= (T.map[g].pieces[p2].b - T.map[g].pieces[p2].a)
 HaploPieces(T) == {x \in AllPieces(T) : T.map[x[1]].pieces[x[2]].role = "haplotig"}
 HaplotigsNamedAndSorted(T) ==
   LET H == HaploPieces(T)  outs == {OutOf(T, T.map[x[1]].pieces[x[2]].src) : x \in H} IN
